@@ -219,6 +219,10 @@ class _Frame:
 NORMAL_OUT = "n"
 
 
+# calls that do not raise (clock reads, type tests): no exception edge is drawn for them
+TOTAL_CALLS = {"time.monotonic", "time.time", "time.perf_counter", "time.time_ns", "time.monotonic_ns", "time.perf_counter_ns", "isinstance", "id", "callable"}
+
+
 class CFGBuilder:
     """Builds the CFG of one function."""
 
@@ -344,6 +348,7 @@ class CFGBuilder:
         if isinstance(st, ast.Assert):
             d = self.expr_events(st.test, st, d, frames)
             t = g.new("test", st.test, st)
+            t.meta["assert"] = True
             self.connect(d, t)
             r = g.new("raise", st, st, "raise AssertionError")
             g.edge(t, r, "F")
@@ -592,7 +597,7 @@ class CFGBuilder:
                 d = self.expr_events(k.value, st, d, frames, in_comp)
             n = g.new("call", e, st, in_comp=in_comp, callee=dotted(e.func))
             self.connect(d, n)
-            if self.raise_on_calls:
+            if self.raise_on_calls and (dotted(e.func) or "") not in TOTAL_CALLS:
                 self.route_exception(n, "exc", "exc", None, frames)
             return [(n, "n")]
         if isinstance(e, ast.NamedExpr):
